@@ -375,6 +375,13 @@ class OrderedMultiDict(dict, MutableMappingSequence):
 
         kvlist = _insert_arg_helper(args)
 
+        # Normalize the index as list.insert() would, so that incrementing
+        # it keeps several pairs together and in order.
+        if index < 0:
+            index = max(0, len(self.__items) + index)
+        else:
+            index = min(index, len(self.__items))
+
         for (key, value) in kvlist:
             self.__items.insert(index, (key, value))
             index += 1
